@@ -256,10 +256,18 @@ def run_step(B, inst, st):
         try:
             sig = yield from run_block(B, inst, st[1])
             return sig
-        except Exception as e:
+        except GeneratorExit:
+            raise
+        except HarnessError:
+            raise
+        except BaseException as e:
+            if not isinstance(e, Exception) and catch != "base":
+                raise
             if catch == "sim" and not isinstance(e, SimError):
                 raise
-            if catch not in ("sim", "all"):
+            if catch not in ("sim", "all", "base"):
+                raise
+            if type(e).__name__ == "CaseTimeout":
                 raise
             err = e
         B.on_caught(inst, err)
